@@ -1,14 +1,18 @@
-(* C15 — malformed projects are rejected with a diagnostic, never a crash (partial).
-   Proved here: the string-level core is total (no panic, no unbounded recursion) for every input,
-   accepted trees are well-formed (parent chains end), the build-order walk terminates with an
-   order or a cycle verdict. The remaining panic sites of the model (numbered 100-103 in
-   Generate.v: indices and lookups that the loader establishes) and the sources' inventory of
-   potential panic sites are checked at run time; serde_yaml/clap are outside the model. *)
+(* C15 — malformed projects are rejected with a diagnostic, never a crash.
+   Proved here: the string-level core is total (no panic, no unbounded recursion) for every input;
+   accepted trees are well-formed (parent chains end); the loader ends on EVERY tree of documents
+   with a bag or an error value; and on every project that loads, for every command line, the
+   generation ends with a result or an error value — none of the panic sites of the model (the
+   unwrap/expect calls of the code, numbered 100-103 in Generate.v) is reachable and no fuel bound
+   (parent walks, work-list, resolver, expansion) is exhausted. serde_yaml/clap (bytes to
+   documents) are outside the model; the sources' inventory of potential panic sites is checked
+   at run time. Proofs: proofs/GenTotal.v, LoadBins.v, ExpandFacts.v, AllowFacts.v, LoadTotal.v,
+   ResolverTotal.v. *)
 From Coq Require Import Ascii String List NArith.
 Import ListNotations.
 Require Import Laze.model.Base Laze.model.Env Laze.model.Expand Laze.model.Allow Laze.model.Ctx
         Laze.model.Load Laze.model.Resolver Laze.model.Checks Laze.proofs.ExpandFacts Laze.proofs.AllowFacts Laze.proofs.LoadFacts
-        Laze.proofs.LoadTotal Laze.proofs.ResolverTotal.
+        Laze.proofs.LoadTotal Laze.proofs.ResolverTotal Laze.model.Ninja Laze.model.Generate Laze.proofs.GenTotal.
 Open Scope list_scope.
 
 Theorem C15_expand_total : forall (r : fenv) pol f,
@@ -59,3 +63,36 @@ Theorem C15_resolver_terminates : forall b builder bname binary cli_selects disa
   resolve_build b builder bname binary cli_selects disabled0 <> Fuel.
 Proof. exact resolve_build_terminates. Qed.
 Print Assumptions C15_resolver_terminates.
+
+(* the loader ends on every tree of documents: with a bag or with an error value (never a panic
+   site, never out of fuel) *)
+Theorem C15_loader_ends : forall t pf bd, ends (load t pf bd).
+Proof. exact load_ends. Qed.
+Print Assumptions C15_loader_ends.
+
+(* on every project that loads, for every hasher, evaluator answer, selection, partition, --select,
+   --disable and -D, the generation ends with a result or an error value: the panic sites 100-103
+   (builder index, the binary's context id and directory, the lookup of a build-order name among
+   the build's modules) are unreachable, and no fuel bound is exhausted *)
+Theorem C15_generator_ends : forall H EV t pf bd b le bsel asel local part select disable cli_env,
+  load t pf bd = Ok b -> ends (generate H EV b le bsel asel local part select disable cli_env).
+Proof. exact generate_ends. Qed.
+Print Assumptions C15_generator_ends.
+
+(* both together: load, then generate *)
+Theorem C15_load_and_generate_end : forall H EV t pf bd le bsel asel local part select disable cli_env,
+  ends (rbind (load t pf bd) (fun b => generate H EV b le bsel asel local part select disable cli_env)).
+Proof.
+  intros. apply ends_rbind; [apply load_ends|]. intros b HL. exact (generate_ends _ _ _ _ _ _ _ _ _ _ _ _ _ _ HL).
+Qed.
+Print Assumptions C15_load_and_generate_end.
+
+(* [ends] means what it says *)
+Theorem C15_ends_spec : forall A (x : res A), ends x <-> (exists a, x = Ok a) \/ (exists e, x = Err e).
+Proof.
+  intros A x. destruct x as [a|e|n|]; cbn; split; try tauto.
+  - intros _. left. exists a. reflexivity.
+  - intros _. right. exists e. reflexivity.
+  - intros [[a E]|[e E]]; discriminate.
+  - intros [[a E]|[e E]]; discriminate.
+Qed.
